@@ -781,11 +781,34 @@ static void sc_netbuf(const Case &c) {
       }
     } else if (op.k == "wait" && R && !r_dead && !waiting) {
       size_t k = (size_t)std::min<int64_t>(std::max<int64_t>(A(0), 1), 15000);
+      // what the reader holds before the call
+      std::string before;
+      {
+        uint8_t *p0;
+        size_t l0;
+        s_nr_peek(R, &p0, &l0);
+        before.assign((const char *)p0, l0);
+      }
       OpScope sc;
       int rc = s_nr_wait(R, k, nb_cb, nullptr);
       if (rc != 0) {
         MUST_BE_INJECTED(sc, "netbuf_read_wait");
-        r_dead = true;  // not promised to be reusable: only released from now on
+        // "leaves objects unchanged": the buffered data is what it was ...
+        uint8_t *p1;
+        size_t l1;
+        s_nr_peek(R, &p1, &l1);
+        if (VV->ok && (l1 != before.size() || memcmp(p1, before.data(), l1) != 0))
+          VV->fail("reader-changed-by-failed-wait", "netbuf_read_wait failed (allocation refused) and the reader's buffered data changed: " + std::to_string(before.size()) + " bytes before, " +
+                                                        std::to_string(l1) + " bytes after" + (l1 == before.size() ? " (different contents)" : ""));
+        // ... and once the allocator has recovered the same wait can be made
+        if (VV->ok && !aw::S().persistent) {
+          int rc2 = s_nr_wait(R, k, nb_cb, nullptr);
+          if (rc2 != 0)
+            VV->fail("retry-refused", "the same netbuf_read_wait right after a refused one failed again although the allocator had recovered");
+          else
+            waiting = true;
+        } else
+          r_dead = true;
       } else
         waiting = true;
     } else if (op.k == "winit" && !W && !w_dead) {
